@@ -227,7 +227,9 @@ def check_fresh(ctx):
                            'namedtuple': 'a class', 'collections.namedtuple': 'a class', 'field': 'dataclass field descriptor', 'dataclasses.field': 'dataclass field descriptor',
                            'TypeVar': 'typing', 'typing.TypeVar': 'typing', 'logging.getLogger': 'logger registry of the standard library (not query state)',
                            'Decimal': 'immutable', 'decimal.Decimal': 'immutable', 'str': 'immutable', 'int': 'immutable', 'float': 'immutable', 'bool': 'immutable',
-                           'os.getenv': 'a string', 'os.environ.get': 'a string', 'hasattr': 'a bool', 'getattr': 'reads an attribute', 'isinstance': 'a bool', 'len': 'an int'}
+                           'functools.partial': 'a function with bound arguments (no state of its own)', 'partial': 'a function with bound arguments',
+                           'operator.itemgetter': 'a pure function', 'operator.attrgetter': 'a pure function', 'itemgetter': 'a pure function',
+                           'attrgetter': 'a pure function', 'os.getenv': 'a string', 'os.environ.get': 'a string', 'hasattr': 'a bool', 'getattr': 'reads an attribute', 'isinstance': 'a bool', 'len': 'an int'}
     nlib = 0
     for f in files_of(ctx):
         tree = ctx.src.tree(f)
